@@ -129,6 +129,7 @@ Proof.
   - apply R_stp. exact H.
   - apply R_stp. exact H.
   - apply R_stp. exact H.
+  - apply R_stp. exact H.
   - destruct (assoc (tmeta x) k) as [[raw dl]|]; [|exact H].
     destruct raw; [apply R_stp; exact H|]. destruct (N.leb dl (clock (ms x))); [exact H|apply R_stp; exact H].
   - apply R_stp. exact H.
